@@ -106,7 +106,14 @@ func (p *c12) Run(ci any, env *core.Env) *core.Failure {
 	}
 	hc := feat.HayClass(h)
 	mk := func(kind, api, group, strat, exp, got string) *core.Failure {
-		d := &core.Disc{Prop: "C12", API: api, Group: group, Mode: "first", Kind: kind, Strategy: strat, Feats: cc.Feats, Hay: hc, Expected: exp, Observed: got}
+		site := "limits=default"
+		if c.Cfg.MaxDFAStates < 100 || c.Cfg.DeterminizationLimit < 100 {
+			site = "limits=tiny-dfa"
+		}
+		if c.Cfg.MaxLiterals < 64 {
+			site += ",few-literals"
+		}
+		d := &core.Disc{Prop: "C12", API: api, Group: group, Mode: "first", Kind: kind, Strategy: strat, Feats: cc.Feats, Hay: hc, Site: site, Expected: exp, Observed: got}
 		d.Layer = cc.Layer(h)
 		return env.Known(d, c)
 	}
